@@ -1259,24 +1259,29 @@ def _run_allclose(
                 ),
             )
 
+        # Compare the values as produced: casting the ORT result to the JAX
+        # dtype first would hide fractional parts (int expected, float got),
+        # integer wrap-around (int32 expected, int64 got) and non-0/1 values
+        # (bool expected, int got).
         if _is_floating_dtype(expected_arr) or _is_floating_dtype(got_arr):
+            common_dtype = np.result_type(expected_arr.dtype, got_arr.dtype)
+            expected_cmp = expected_arr.astype(common_dtype, copy=False)
+            got_cmp = got_arr.astype(common_dtype, copy=False)
             if not np.allclose(
-                expected_arr,
-                got_arr.astype(expected_arr.dtype, copy=False),
+                expected_cmp,
+                got_cmp,
                 rtol=rtol,
                 atol=atol,
                 equal_nan=True,
             ):
-                diff = np.abs(expected_arr - got_arr)
+                diff = np.abs(expected_cmp - got_cmp)
                 max_diff = float(diff.max()) if diff.size else 0.0
                 return (
                     False,
                     f"Output {idx} mismatch (max abs diff {max_diff}, rtol={rtol}, atol={atol})",
                 )
         else:
-            if not np.array_equal(
-                expected_arr, got_arr.astype(expected_arr.dtype, copy=False)
-            ):
+            if not np.array_equal(expected_arr, got_arr):
                 return (False, f"Output {idx} mismatch (non-floating tensors differ)")
 
     return True, "Outputs match within tolerance."
